@@ -619,7 +619,7 @@ theorem inv_barrierSnapshot {c : Cfg} {n : Nat} {s s' : State} {out : Out} (who 
     constructor <;> simp only [tick, snapTh] <;> grind
   · simp only [Option.some.injEq, Prod.mk.injEq] at st
     obtain ⟨rfl, -⟩ := st
-    constructor <;> simp only [tick, snapTh, hl'] <;> grind
+    constructor <;> simp only [tick, snapTh] <;> grind
 
 theorem inv_barrierRun {c : Cfg} {n : Nat} {s s' : State} {out : Out}
     (h : Inv c n s) (st : step c n s .barrierRun = some (s', out)) : Inv c n s' := by
